@@ -354,12 +354,15 @@ def gen_slab(rng, i):
         above = 0.0
     else:
         above = wg.R(rng.uniform(0.2, 1.0) * thick)
+        # distance trench - ridge from 100 km to 3000 km: plate ages at the trench from under a million to hundreds of million years
+        # (young, slowly subducting slabs lose their anomaly within the slab length: the tip taper then works near the ambient temperature)
+        rd = 10.0 ** rng.uniform(5.0, 6.5)
         for s in f['segments']:
             s['top truncation'] = [-above]
         m = {'model': 'mass conserving', 'spreading velocity': wg.num(rng, 0.01, 0.12), 'subducting velocity': wg.num(rng, 0.01, 0.12),
              'min distance slab top': -above, 'max distance slab top': thick,
-             'ridge coordinates': [[[wg.R(t['p0'][0] - t['n'][0] * 3e6 - t['e'][0] * 4e6), wg.R(t['p0'][1] - t['n'][1] * 3e6 - t['e'][1] * 4e6)],
-                                    [wg.R(t['p1'][0] - t['n'][0] * 3e6 + t['e'][0] * 4e6), wg.R(t['p1'][1] - t['n'][1] * 3e6 + t['e'][1] * 4e6)]]]}
+             'ridge coordinates': [[[wg.R(t['p0'][0] - t['n'][0] * rd - t['e'][0] * 4e6), wg.R(t['p0'][1] - t['n'][1] * rd - t['e'][1] * 4e6)],
+                                    [wg.R(t['p1'][0] - t['n'][0] * rd + t['e'][0] * 4e6), wg.R(t['p1'][1] - t['n'][1] * rd + t['e'][1] * 4e6)]]]}
         if rng.random() < 0.5:
             m['coupling depth'] = wg.num(rng, 5e4, 1.5e5)
         if rng.random() < 0.4:
@@ -389,16 +392,22 @@ def gen_slab(rng, i):
     world(c, 1, core.workfile(PID, fn))
     probes = []
     prof = t['profile']
-    for _ in range(60):
+    for ip in range(80):
         gseg = rng.choice(prof)
         u = rng.uniform(0.02, 0.98)
+        if ip >= 60:
+            # the tip: last tenth of the last segment (where a taper brings the minimum temperature back to the ambient one)
+            gseg = prof[-1]
+            u = rng.uniform(0.8, 0.999)
         if gseg.kappa == 0.0:
             bh, bv, a = gseg.h0 + u * (gseg.h1 - gseg.h0), gseg.v0 + u * (gseg.v1 - gseg.v0), gseg.a0
         else:
             a = gseg.a0 + u * (gseg.a1 - gseg.a0)
             bh, bv = gseg.ch + math.sin(a) / gseg.kappa, gseg.cv - math.cos(a) / gseg.kappa
         r_off = rng.random()
-        if r_off < 0.6:
+        if ip >= 60:
+            off = rng.uniform(0.0, 1.0) * thick
+        elif r_off < 0.6:
             off = rng.uniform(-above, thick)
         elif r_off < 0.85:
             off = rng.uniform(-0.05, 0.15) * thick          # across the slab top, where the temperature minimum sits
